@@ -59,12 +59,21 @@ let run (path : String.t) =
            if matrix_bundle cid <> registered then (corr := false; note (Printf.sprintf "bundle server / client %s via %s: implementation %s, model %s" c via res (if matrix_bundle cid then "admits" else "refuses")));
            if registered && c <> "trusted" then (prop := false; note (Printf.sprintf "a client certified by the other CA registered on a server started with the trusted CA (its --cert file was a bundle containing the other CA) via %s" via));
            if (not registered) && c = "trusted" then (prop := false; note (Printf.sprintf "the trusted client was refused by the bundle server via %s: %s" via res))
+         | ["pairr"; round; via; "->"; res] ->
+           incr pairs;
+           Hashtbl.replace seen ("R" ^ round, "trusted", via) ();
+           Hashtbl.replace distinct ("R" ^ via) ();
+           let registered = (res = "registered") in
+           let key = "R-trusted-" ^ (if registered then "registered" else "refused") in
+           Hashtbl.replace outcomes key (1 + try Hashtbl.find outcomes key with Not_found -> 0);
+           if matrix SrvTrusted IdTrusted <> registered then (corr := false; note (Printf.sprintf "set renewed in place (round %s) via %s: implementation %s, model %s" round via res (if matrix SrvTrusted IdTrusted then "admits" else "refuses")));
+           if not registered then (prop := false; note (Printf.sprintf "the certificate set the generator wrote over an earlier set (round %s) does not work for localhost (via %s): %s" round via res))
          | "harness_error" :: _ -> prop := false; note lines.(!i)
          | ["end"] -> ended := true
          | _ -> ());
         incr i
       done;
-      if not !ended || Hashtbl.length seen < 26 then (prop := false; note "the identity matrix was not completed");
+      if not !ended || Hashtbl.length seen < 32 then (prop := false; note "the identity matrix was not completed");
       if not !corr then incr corr_fail;
       if not !prop then incr prop_fail;
       if not (!corr && !prop) then
